@@ -16,7 +16,7 @@ from zope.interface.common import ABCInterfaceClass, ABCInterface
 from .common import wmod, newworld
 
 P = inspect.Parameter
-KINDS = ('function', 'method', 'body', 'abc', 'abc-noself')
+KINDS = ('function', 'method', 'body', 'abc', 'abc-noself', 'method-noself')
 # default values: not only numbers (a tuple is what %-formatting trips over)
 DEFAULTS = [0, (), (7,), 'two', None, (1, 2), 1.5, [3]]
 
@@ -84,8 +84,8 @@ def eval_one(sig, kind):
     npos = sig[0] + sig[1]
     if sig[2] > npos and not self_:
         return 'skip', None          # one default more than parameters: self kinds only
-    if kind == 'abc-noself':
-        # an ABC method that takes its instance through *args
+    if kind in ('abc-noself', 'method-noself'):
+        # a method that takes its instance through *args
         if npos or sig[3] != '*args':
             return 'skip', None
     newworld()
@@ -101,7 +101,7 @@ def eval_one(sig, kind):
     if kind == 'function':
         m = fromFunction(f)
         exp = expected(inspect.signature(f), False)
-    elif kind == 'method':
+    elif kind in ('method', 'method-noself'):
         K = type('K', (), {'f': f})
         bound = K().f
         m = fromMethod(bound)
